@@ -1,4 +1,5 @@
 import LoguruModel.Context.Scope
+import LoguruModel.Context.Heap
 /-
 C12 – property theorems (only the theorems and their non-vacuity examples live here).
 The operand orders (`Gen.recordLayers`, `Gen.bindOperands`, `Gen.ctxOperands`, `Gen.patchOperands`),
@@ -28,10 +29,10 @@ logging call in context `c` of any reachable or unreachable state -/
 theorem log_extra_layering (papply : P → Assoc K V → Assoc K V) (s : State K V P) (c : Nat)
     (o : Opts K V P) (kw : Assoc K V) :
     logEvents papply s c o kw =
-      (runPatchers papply c (s.corePatcher.toList ++ o.patchers)
+      (runPatchers papply c (coreCalled s ++ o.patchers)
           (buildExtra s.coreExtra (ctxGet s c) o.extra kw o.flags.capture)).1 ++
         s.handlers.map (fun h => Event.delivered c h
-          (applyAll papply (s.corePatcher.toList ++ o.patchers)
+          (applyAll papply (coreCalled s ++ o.patchers)
             (buildExtra s.coreExtra (ctxGet s c) o.extra kw o.flags.capture))) := by
   unfold logEvents
   simp [Gen.logPhases, List.foldl, runPhase, runPatchers_append, runPatchers_snd, applyAll_append]
@@ -44,21 +45,21 @@ and only then – one `delivered` event per handler, all carrying the final extr
 theorem patch_order_once (papply : P → Assoc K V → Assoc K V) (s : State K V P) (c l : Nat)
     (o : Opts K V P) (kw : Assoc K V) (hl : s.loggers[l]? = some o) (hh : s.handlers ≠ []) :
     ∃ ps ds, (step papply s c (.log l kw)).out = s.out ++ ps ++ ds ∧
-      ps.filterMap Event.patcher? = s.corePatcher.toList ++ o.patchers ∧
-      ps.length = (s.corePatcher.toList ++ o.patchers).length ∧
+      ps.filterMap Event.patcher? = coreCalled s ++ o.patchers ∧
+      ps.length = (coreCalled s ++ o.patchers).length ∧
       (∀ e ∈ ps, e.isDelivered = false) ∧
-      (∀ i p, (s.corePatcher.toList ++ o.patchers)[i]? = some p →
+      (∀ i p, (coreCalled s ++ o.patchers)[i]? = some p →
         ps[i]? = some (Event.patched c p
-          (applyAll papply ((s.corePatcher.toList ++ o.patchers).take i)
+          (applyAll papply ((coreCalled s ++ o.patchers).take i)
             (buildExtra s.coreExtra (ctxGet s c) o.extra kw o.flags.capture)))) ∧
       ds = s.handlers.map (fun h => Event.delivered c h
-          (applyAll papply (s.corePatcher.toList ++ o.patchers)
+          (applyAll papply (coreCalled s ++ o.patchers)
             (buildExtra s.coreExtra (ctxGet s c) o.extra kw o.flags.capture))) := by
   refine ⟨_, _, ?_, runPatchers_ids papply c _ _, ?_, runPatchers_none_delivered papply c _ _,
     fun i p h => runPatchers_seen papply c _ _ i p h, rfl⟩
   · have : s.handlers.isEmpty = false := by cases h : s.handlers <;> simp_all
     simp [step, hl, this, log_extra_layering, List.append_assoc]
-  · have := congrArg List.length (runPatchers_ids papply c (s.corePatcher.toList ++ o.patchers)
+  · have := congrArg List.length (runPatchers_ids papply c (coreCalled s ++ o.patchers)
       (buildExtra s.coreExtra (ctxGet s c) o.extra kw o.flags.capture))
     have h2 : ∀ (ps : List P) (x : Assoc K V), (runPatchers papply c ps x).1.length = ps.length := by
       intro ps; induction ps with
@@ -71,26 +72,59 @@ theorem no_handler_no_patch (papply : P → Assoc K V → Assoc K V) (s : State 
     (kw : Assoc K V) (hh : s.handlers = []) : step papply s c (.log l kw) = s := by
   simp only [step]; split <;> simp [hh]
 
+/-! ### the configured patcher and its guard in `_log` -/
+
+/-- `configured_patcher_always_called`: the property's clause "patchers run once per logging call – the
+configured patcher first", for the configured patcher: whenever one is configured it is called, WHATEVER the
+truth value of the patcher object (a callable class may define `__bool__` / `__len__`).  Rests on the
+regenerated `Gen.corePatcherGuard`: `_log` must test `if core.patcher is not None:` – with `if core.patcher:`
+(the shape repaired by 8d54a52) the statement is false and the build fails. -/
+theorem configured_patcher_always_called (s : State K V P) : coreCalled s = s.corePatcher.toList := by
+  simp [coreCalled, Gen.corePatcherGuard, coreCalledWith]
+
+/-- under either guard a truthy patcher object (function, lambda, bound method) is called -/
+theorem configured_truthy_patcher_called (guard : PatcherGuard) (s : State K V P)
+    (h : ∀ p, s.corePatcher = some p → s.truthy p = true) : coreCalledWith guard s = s.corePatcher.toList :=
+  coreCalledWith_truthy guard s h
+
+/-- refutation of the truth-value guard (`if core.patcher:`), for EVERY falsy patcher object: after
+`configure(patcher=p)` a logging call delivers its record without `p` having been called -/
+theorem truthy_guard_refuted (s : State K V P) (p : P) (hp : s.corePatcher = some p) (hf : s.truthy p = false) :
+    coreCalledWith .truthy s = [] ∧ coreCalledWith .truthy s ≠ s.corePatcher.toList := by
+  refine ⟨coreCalledWith_truthy_falsy s p hp hf, ?_⟩
+  rw [coreCalledWith_truthy_falsy s p hp hf, hp]
+  simp
+
+/-- the events of `configure(patcher=p); info()` for a falsy `p` in the model as regenerated NOW: `p` is called
+(shown the empty extra), then the record is delivered -/
+theorem falsy_configured_patcher_called (papply : P → Assoc K V → Assoc K V) (p : P) :
+    let s := run papply (initT (fun _ => false) : State K V P) [(0, .addHandler), (0, .configure none (some p))]
+    (step papply s 0 (.log 0 [])).out = [Event.patched 0 p [], Event.delivered 0 0 (papply p [])] := by
+  simp [run, step, initT, rootOpts, logEvents, Gen.logPhases, runPhase, runPatchers, coreCalled,
+    Gen.corePatcherGuard, coreCalledWith, buildExtra, Gen.recordLayers, layerVal, ctxGet,
+    ContextVars.get, ContextVars.init, merge, Gen.optDefaults]
+
 /-! ### contextualize: scoping, restoration, isolation -/
 
 /-- every state reachable from the initial one by ANY trace (any programme of any number of
 contexts, in any interleaving) satisfies the invariant: all open blocks hold valid tokens and the
 variable's value in every context is the one its open blocks determine -/
-theorem reachable_inv (papply : P → Assoc K V → Assoc K V) (t : List (Nat × Op K V P)) :
-    Inv (run papply (init : State K V P) t) :=
-  inv_run papply _ t inv_init
+theorem reachable_inv (papply : P → Assoc K V → Assoc K V) (t : List (Nat × Op K V P))
+    (truthy : P → Bool := fun _ => true) :
+    Inv (run papply (initT truthy : State K V P) t) :=
+  inv_run papply _ t (inv_initT truthy)
 
 /-- `contextualize_scoped`: after any trace, key by key, the context layer seen in context `c` is
 given by the blocks of `c` that are entered and not yet left – the innermost one that names the key
 wins – and, below them, by the value `c` started with (`spawn_inherits`: a copy of the creator's
 value at creation time for a task, nothing for a thread). -/
 theorem contextualize_scoped (papply : P → Assoc K V → Assoc K V) (t : List (Nat × Op K V P))
-    (c : Nat) (k : K) :
-    let s := run papply (init : State K V P) t
+    (c : Nat) (k : K) (truthy : P → Bool := fun _ => true) :
+    let s := run papply (initT truthy : State K V P) t
     get? (ctxGet s c) k =
       orElse (firstSome ((s.stacks c).map (fun f => get? f.kw k))) (get? ((s.bases c).getD []) k) := by
   intro s
-  have hI : Inv s := reachable_inv papply t
+  have hI : Inv s := reachable_inv papply t truthy
   show get? ((ContextVars.get s.cv c).getD []) k = _
   unfold ContextVars.get
   rw [hI.value c, stackValue_lookup]
@@ -155,8 +189,9 @@ theorem raise_eq_exits (papply : P → Assoc K V → Assoc K V) (s : State K V P
 
 /-- `exit_never_raises`: in no reachable state does `context.reset(token)` fail (token of another
 context, token used twice): no trace ever produces an error event. -/
-theorem exit_never_raises (papply : P → Assoc K V → Assoc K V) (t : List (Nat × Op K V P)) :
-    ∀ e ∈ (run papply (init : State K V P) t).out, e.isError = false := by
+theorem exit_never_raises (papply : P → Assoc K V → Assoc K V) (t : List (Nat × Op K V P))
+    (truthy : P → Bool := fun _ => true) :
+    ∀ e ∈ (run papply (initT truthy : State K V P) t).out, e.isError = false := by
   have gen : ∀ (t : List (Nat × Op K V P)) (s : State K V P), Inv s → (∀ e ∈ s.out, e.isError = false) →
       ∀ e ∈ (run papply s t).out, e.isError = false := by
     intro t
@@ -165,7 +200,7 @@ theorem exit_never_raises (papply : P → Assoc K V → Assoc K V) (t : List (Na
     | cons e t ih =>
       intro s hI hE
       exact ih _ (inv_step papply s e.1 e.2 hI) (step_no_error papply s e.1 e.2 hI hE)
-  exact gen t _ inv_init (by intro e he; cases he)
+  exact gen t _ (inv_initT truthy) (by intro e he; cases he)
 
 /-- `isolation`: a trace in which context `c` executes nothing – whatever the other contexts do:
 enter, leave, raise, spawn, configure, log – leaves `c`'s context layer, its open blocks and its
@@ -208,8 +243,8 @@ logger without patchers (and no configured patcher) hands every handler a record
 by key: kwargs (if captured) ▷ bind ▷ innermost open block of `c` naming the key ▷ … ▷ what `c`
 inherited when it was created ▷ configure(extra). -/
 theorem record_extra_end_to_end (papply : P → Assoc K V → Assoc K V) (t : List (Nat × Op K V P))
-    (c l : Nat) (o : Opts K V P) (kw : Assoc K V) :
-    let s := run papply (init : State K V P) t
+    (c l : Nat) (o : Opts K V P) (kw : Assoc K V) (truthy : P → Bool := fun _ => true) :
+    let s := run papply (initT truthy : State K V P) t
     s.loggers[l]? = some o → o.patchers = [] → s.corePatcher = none → s.handlers ≠ [] →
     ∃ x, (step papply s c (.log l kw)).out = s.out ++ s.handlers.map (fun h => Event.delivered c h x) ∧
       ∀ k, get? x k =
@@ -221,9 +256,9 @@ theorem record_extra_end_to_end (papply : P → Assoc K V → Assoc K V) (t : Li
   intro s hl hp hcp hh
   refine ⟨buildExtra s.coreExtra (ctxGet s c) o.extra kw o.flags.capture, ?_, ?_⟩
   · have : s.handlers.isEmpty = false := by cases h : s.handlers <;> simp_all
-    simp [step, hl, this, log_extra_layering, hp, hcp, runPatchers, applyAll]
+    simp [step, hl, this, log_extra_layering, hp, coreCalled_none s hcp, runPatchers, applyAll]
   · intro k
-    rw [extra_layering, contextualize_scoped papply t c k]
+    rw [extra_layering, contextualize_scoped papply t c k truthy]
 
 /-! ### derived loggers -/
 
@@ -365,6 +400,100 @@ theorem configure_alias_refuted (heap heap' : Nat → Assoc K V) (ref : Nat) (h 
     readBase heap' (configureBase false heap ref) ≠ heap ref := by
   simpa [configureBase, readBase] using h
 
+/-! ### object identity: no aliasing between loguru's containers and what patchers, sinks and the caller reach
+
+`Context/Heap.lean`: every dict is a heap cell; `core.extra`, the ContextVar's default, every value handed to
+`context.set`, every logger's bound `extra` (shared by `opt()`/`patch()` derivations) are references; patchers,
+sinks and the caller mutate IN PLACE, arbitrarily, the `extra` of records they were handed and dicts they own.
+The construction sites are evaluated from their regenerated shapes. -/
+
+open Context.Heap in
+/-- tie G: `log_record["extra"]`, the `extra` given to `bind`'s logger, the value handed to `context.set` and
+the patcher list given to `patch`'s logger are all DISPLAYS (new objects at every evaluation), and
+`configure(extra=)` copies.  (Fails to build when one of them becomes a bare name or a conditional with a
+bare-name arm, e.g. `{…} if core.extra or context.get() else extra`.) -/
+theorem construction_sites_fresh :
+    Gen.recordExtraExpr.aliasFree = true ∧ Gen.bindExtraExpr.aliasFree = true ∧
+    Gen.ctxValueExpr.aliasFree = true ∧ Gen.patchListExpr.aliasFree = true ∧ Gen.configureCopies = true ∧
+    Gen.recordExtraExpr = .display Gen.recordLayers ∧ Gen.bindExtraExpr = .display Gen.bindOperands ∧
+    Gen.ctxValueExpr = .display Gen.ctxOperands :=
+  ⟨record_site_fresh, bind_site_fresh, ctx_site_fresh, patch_site_fresh, configure_copies,
+   record_site_is_layers, bind_site_is_operands, ctx_site_is_operands⟩
+
+open Context.Heap in
+/-- `heap_separation`: after ANY trace – logging calls whose patchers/sinks do anything to the record's extra,
+callers mutating whatever they own or were handed, blocks, tasks, derived loggers – the objects loguru shares
+internally are disjoint from `core.extra` and from everything the caller can reach. -/
+theorem heap_separation (t : List (Nat × HOp K V)) : Sep (hrun (hinit : HState K V) t) :=
+  sep_run t _ sep_init
+
+open Context.Heap in
+/-- `record_extra_fresh`: the `extra` of the record of a logging call is an object that did not exist before
+the call – so it is not the logger's bound dict, not `core.extra`, not a context value, not another record,
+not a dict of the caller – and what the patchers/sinks receive in it is the functional model's `buildExtra`
+of the CONTENTS of the three layers (then `pf`, their own in-place effect). -/
+theorem record_extra_fresh (s : HState K V) (c l : Nat) (kw : Assoc K V) (pf : Assoc K V → Assoc K V)
+    (g : List Bool) (cap : Bool) (b : Nat) (hS : Sep s) (hl : s.loggers[l]? = some (cap, b)) :
+    let s' := hstep s c (.log l kw pf g)
+    s'.records = s.records ++ [s.heap.length] ∧
+    ¬ Shared s s.heap.length ∧ s.heap.length ≠ s.core ∧ ¬ External s s.heap.length ∧
+    cell s'.heap s.heap.length =
+      pf (buildExtra (cell s.heap s.core) (cell s.heap (current s c)) (cell s.heap b) kw cap) := by
+  intro s'
+  have hs' : s' = hstep s c (.log l kw pf g) := rfl
+  simp only [hstep, hl, record_site_is_layers, eval] at hs'
+  refine ⟨by rw [hs'], fun h => Nat.lt_irrefl _ (hS.sharedLt _ h), fun h => ?_,
+    fun h => Nat.lt_irrefl _ (hS.extLt _ h), ?_⟩
+  · have := hS.coreLt; omega
+  · rw [hs']
+    simp only []
+    rw [cell_set_eq _ _ _ (by simp), cell_append_len]
+    unfold buildExtra mergeAll
+    rw [List.foldl_map]
+    cases cap <;> rfl
+
+open Context.Heap in
+/-- `shared_objects_immutable`: an object loguru shares internally – the bound `extra` of an existing logger
+(also shared with the loggers `opt()`/`patch()` derived from it), a value the ContextVar holds or will be reset
+to (also shared with the tasks that copied the context), the ContextVar's default `{}` – has the same CONTENT
+after any trace: no logging call (kwargs captured in place, patchers, sinks), no `bind`/`contextualize`/
+`configure`, no mutation by the caller of what it can reach ever writes to it. -/
+theorem shared_objects_immutable (s : HState K V) (t : List (Nat × HOp K V)) (hS : Sep s) (r : Nat)
+    (h : Shared s r) : cell (hrun s t).heap r = cell s.heap r :=
+  (quiet_run t s r (shared_quiet s hS r h)).2
+
+open Context.Heap in
+/-- `derived_loggers_immutable_objects`: "bind(), opt() and patch() never alter the logger they were called
+on", at object level: after any trace every existing logger still refers to the same dict object and that
+object still has the same content. -/
+theorem derived_loggers_immutable_objects (s : HState K V) (t : List (Nat × HOp K V)) (hS : Sep s)
+    (i : Nat) (p : Bool × Nat) (hi : s.loggers[i]? = some p) :
+    (hrun s t).loggers[i]? = some p ∧ cell (hrun s t).heap p.2 = cell s.heap p.2 := by
+  obtain ⟨new, hn⟩ := loggers_grow t s
+  have hlt : i < s.loggers.length := by
+    rcases Nat.lt_or_ge i s.loggers.length with h | h
+    · exact h
+    · rw [List.getElem?_eq_none h] at hi; cases hi
+  refine ⟨by rw [hn, List.getElem?_append_left hlt, hi], ?_⟩
+  exact shared_objects_immutable s t hS p.2 (Or.inr (Or.inr (Or.inr ⟨p, List.mem_of_getElem? hi, rfl⟩)))
+
+open Context.Heap in
+/-- `delivered_record_immutable`: "… or a record already delivered": the extra of a delivered record is never
+written to by any later operation of loguru, of other records' patchers and sinks, or of the caller on OTHER
+objects – it changes only when whoever holds it mutates that very record. -/
+theorem delivered_record_immutable (s : HState K V) (t : List (Nat × HOp K V)) (hS : Sep s) (r : Nat)
+    (hr : r ∈ s.records) (hn : NoMutate r t) : cell (hrun s t).heap r = cell s.heap r :=
+  (record_run t s hS r hr hn).2
+
+open Context.Heap in
+/-- the other direction (refutation of the aliasing shape): a site that is a bare name hands over the very
+object, and the in-place `update(kwargs)` / patcher that follows writes into the receiver's dict -/
+theorem alias_site_writes_receiver (heap : Cells K V) (env : Layer → Nat) (o : Layer) (g : List Bool)
+    (x : Assoc K V) (h : env o < heap.length) :
+    let r := eval mergeAll heap env g (.alias o)
+    r.2 = env o ∧ cell (r.1.set r.2 x) (env o) = x := by
+  exact ⟨rfl, cell_set_eq _ _ _ h⟩
+
 /-! ### non-vacuity -/
 
 /-- a trace with two contexts, overlapping keys, a block left by an exception while another
@@ -381,5 +510,17 @@ example :
 example : Balanced (K := Nat) (V := Nat) (P := Nat) 0 0
     [(0, .enter [(1, 1)]), (1, .enter [(1, 2)]), (0, .enter [(2, 2)]), (0, .raise 2 .baseException), (1, .exit)] := by
   simp [Balanced]
+
+/-- object level: a logger's dict shared by `opt()`, a record whose patcher writes, the caller clearing the
+record and the dict it passed to configure – the bound dict and the context value keep their content -/
+example :
+    let t : List (Nat × Heap.HOp Nat Nat) :=
+      [(0, .alloc [(1, 10)]), (0, .configure 3), (0, .bind 0 [(2, 20)] []), (0, .opt 1 false),
+       (0, .enter [(3, 30)] []), (0, .log 1 [(2, 21)] (fun x => merge x [(9, 9)]) []),
+       (0, .mutate 8 (fun _ => [])), (0, .mutate 3 (fun _ => [])), (0, .log 2 [(2, 22)] id [])]
+    let s := Heap.hrun (Heap.hinit : Heap.HState Nat Nat) t
+    s.loggers = [(true, 2), (true, 5), (false, 5)] ∧ Heap.cell s.heap 5 = [(2, 20)] ∧
+    s.records = [8, 9] ∧ Heap.cell s.heap 8 = [] ∧ Heap.cell s.heap 9 = [(1, 10), (3, 30), (2, 20)] := by
+  decide
 
 end C12
